@@ -40,6 +40,17 @@ def arraybox_table(ctx, world):
                     assigns[t.id] = st.value
                     if isinstance(st.value, ast.Lambda) and t.id.startswith("__") and t.id.endswith("__"):
                         methods[t.id] = st.value  # __eq__ = lambda self, other: ...
+                    elif isinstance(st.value, (ast.Call, ast.Subscript, ast.Name, ast.Attribute)) and t.id.startswith("__") and t.id.endswith("__") and t.id not in ("__slots__", "__array_priority__", "__doc__", "__module__", "__qualname__"):
+                        methods[t.id] = (st.value, m)  # __neg__ = _unary_method("negative")
+                elif isinstance(t, (ast.Tuple, ast.List)) and all(isinstance(x, ast.Name) for x in t.elts):
+                    # __add__, __radd__ = _operator_pair("add"): component i of the value
+                    from ..model import static_sequence
+
+                    seq_ = static_sequence(st.value)
+                    for i_, x in enumerate(t.elts):
+                        if x.id.startswith("__") and x.id.endswith("__"):
+                            comp_ = seq_[i_] if (seq_ is not None and len(seq_) == len(t.elts)) else ast.Subscript(value=st.value, slice=ast.Constant(value=i_), ctx=ast.Load())
+                            methods[x.id] = (ast.fix_missing_locations(ast.copy_location(comp_, st.value)) if not hasattr(comp_, "lineno") else comp_, m)
     # special methods attached after the class body (setattr / attribute assignment, possibly in a loop over a table)
     for cq, aname, tgt, sm, site, expr in world.table.setattrs:
         if cq == ab.qual and aname.startswith("__") and aname.endswith("__") and expr is not None:
@@ -181,6 +192,15 @@ def arraybox_table(ctx, world):
 
     def getter_term(pname):
         g, site = getter(pname)
+        if g is None and isinstance(assigns.get(pname), ast.expr):
+            # name = <anything that evaluates to property(<function>)>: a factory call, an alias ...
+            t_ = unseq(expand(ev, ev.ev(assigns[pname], Scope(), m), ()))
+            if is_call_to(t_, "builtins.property") and (t_.args or "fget" in t_.kw):
+                clo_, pre_, prekw_ = ev.as_closure(t_.args[0] if t_.args else t_.kw["fget"])
+                if clo_ is not None:
+                    selfs = T("sym", name="self", role="param")
+                    res = ev.apply(clo_, list(pre_) + [selfs], dict(prekw_), [])
+                    return unseq(expand(ev, res, ())), selfs, assigns[pname]
         if g is None:
             return None, None, site
         selfs = T("sym", name="self", role="param")
@@ -336,6 +356,8 @@ def _concat_wiring(world, meth, self_side):
             src = "self" if a is selfs else ("other" if any(x is other for x in _walk(a)) else "?")
             marks.append((mk, src))
     body = _us(_ex(ev, ev.apply(body_clo, margs, {}, []), ()))
+    if body is not None and body.op == "call" and body.fn.op == "ref" and body.fn.ref.qual in ("operator.add", "_operator.add", "operator.concat", "_operator.concat", "operator.__add__", "operator.__concat__") and len(body.args) == 2 and not body.kw:
+        body = T("bin", body.node, body.mod, opname="Add", l=body.args[0], r=body.args[1])
     if body is None or body.op != "bin" or body.opname != "Add":
         return False, f"the primitive's body is not a concatenation a + b (found {str(body)[:60]})"
     side = {}
